@@ -147,3 +147,17 @@ _mops += [('SEQ', (DUP(1), ('SIZE',), ('SWAP',))), ('SEQ', (DUP(1), ('NIL', P(IN
 _sops += [('SEQ', (DUP(1), ('SIZE',), ('SWAP',))), ('SEQ', (DUP(1), ('NIL', INT), ('SWAP',), ('ITER', (('CONS',),)), ('SWAP',)))]
 fam('bigmap', depth=2, maxstack=3, inits=[(S(MAP(INT, STR), _bigmap(n)),) for n in (9, 17, 20)], alphabet=_mops)
 fam('bigset', depth=2, maxstack=3, inits=[(S(SET(INT), _bigset(n)),) for n in (9, 17, 20)], alphabet=_sops)
+
+# every value instruction also below the top of the stack: DIP n { I } on x1 .. xn : S  =  x1 .. xn : (I on S).  An implementation that addresses the
+# stack by absolute position somewhere (instead of relative to the protected prefix) is right at the top and wrong here
+_dops = [('NEG',), ('ABS',), ('ISNAT',), ('INT',), ('NOT',), ('ADD',), ('SUB',), ('MUL',), ('EDIV',), ('COMPARE',), ('EQ',), ('GT',), ('AND',), ('OR',), ('XOR',),
+         ('LSL',), ('LSR',), ('SOME',), ('CAR',), ('CDR',), ('SIZE',), ('CONCAT',), ('PAIR', 2), ('UNPAIR', 2), ('LEFT', NAT), ('RIGHT', NAT), ('NONE', INT), ('UNIT',),
+         ('CONS',), ('NIL', INT), ('IF_NONE', (PUSH(INT, i(0)),), ()), ('IF_LEFT', (), (('SIZE',), ('INT',))), ('IF_CONS', (('SWAP',), DROP(1)), (PUSH(INT, i(-1)),)),
+         ('GET', 1), ('GET', 2), ('UPDATE', 1), ('SLICE',), ('MEM',), ('GETK',), ('UPDATEK',), ('EMPTY_SET', INT), ('ITER', (DROP(1),)), ('MAP', (('SOME',),)),
+         ('BLAKE2B',), ('PACK_DUMMY',)][:-1]
+fam('dipops', depth=2, maxstack=7,
+    inits=[(S(STR, s('top')), S(INT, i(-7)), S(INT, i(3)), S(NAT, i(2)), S(NAT, i(5)), S(INT, i(4))),
+           (S(INT, i(9)), S(STR, s('ab')), S(STR, s('c')), S(NAT, i(1)), S(NAT, i(0)), S(P(INT, NAT), p(i(3), i(4)))),
+           (S(NAT, i(8)), S(BOOL, T_), S(BOOL, F_), S(OPT(INT), some(i(1))), S(LIST(INT), lst(i(1), i(2))), S(OR(INT, STR), left(i(5)))),
+           (S(UNIT, U), S(INT, i(1)), S(SET(INT), ('set', (i(1), i(4)))), S(BYT, b([1, 2])), S(MAP(INT, STR), ('map', ((i(1), s('x')),))))],
+    alphabet=[DIP(n, x) for n in (1, 2) for x in _dops] + [('DIG', 2), ('SWAP',), DROP(1)])
